@@ -1,4 +1,3 @@
 package main
 
 func genTables(repo, out string)  {}
-func genGlobals(repo, out string) {}
